@@ -108,8 +108,8 @@ def collect (f : Bytes) (serial : Nat) : Nat → List Rd → Page → Nat → Ex
 
 /-- `OggOpusInfo(fileobj)` as far as `_inject` depends on it: the serial number of the first page
 whose first packet starts with "OpusHead", and the position behind that page.  A header page
-without the first-page flag or with a major version other than 0 is an OggOpusHeaderError; a
-header packet shorter than 19 bytes makes `struct.unpack` raise `struct.error`. -/
+without the first-page flag, with a header packet shorter than 19 bytes ("truncated ID header")
+or with a major version other than 0 is an OggOpusHeaderError. -/
 def opusInfo (f : Bytes) : Except PyErr (Nat × Nat) :=
   match scanFrom f (startsWith magicOpusHead) (f.length + 1) 0 with
   | .error e => .error e
@@ -117,7 +117,7 @@ def opusInfo (f : Bytes) : Except PyErr (Nat × Nat) :=
     if !r.page.first then .error .mutagen
     else
       let pk := r.page.packets.headD []
-      if pk.length < 19 then .error .struct_
+      if pk.length < 19 then .error .mutagen
       else if (pk.getD 8 0).toNat / 16 ≠ 0 then .error .mutagen
       else .ok (r.page.serial, next)
 
@@ -328,11 +328,14 @@ def injectRaw (c : Codec) (f vc padData : Bytes) (pad : PadChoice) : Outcome :=
         | .error e => ⟨f, some e⟩
         | .ok new => replace f old new
 
-/-- `OggFileType.save` / `delete` around `_inject`: `ogg.error`, `IOError` and `EOFError` come out
-as the format's error class; everything else passes through -/
+/-- `OggFileType.save` / `delete` around `_inject`: `ogg.error`, `IOError`, `EOFError`, `IndexError`
+and `struct.error` come out as the format's error class; everything else (ValueError: it can come
+from the caller's data) passes through -/
 def wrapErr : PyErr → PyErr
   | .eof => .mutagen
   | .io => .mutagen
+  | .index => .mutagen
+  | .struct_ => .mutagen
   | e => e
 
 def injectOutcome (c : Codec) (f vc padData : Bytes) (pad : PadChoice) : Outcome :=
